@@ -102,6 +102,11 @@ func c14Check(cc *run.Case, ns namedStrat, class string, n int) bool {
 	bars := gen.Bars(cc.R, class, n)
 	zone := c14Zones[cc.R.Intn(len(c14Zones))]
 	snaps := inZone(reg.Snaps(bars), zone)
+	if n > 3 && cc.R.Intn(3) == 0 {
+		// two snapshots carry the same date (a split day, two sessions on one day)
+		k := cc.R.Range(1, n-1)
+		snaps[k].Date = snaps[k-1].Date
+	}
 	cc.Desc(map[string]any{"strategy": ns.Name, "class": class, "n": n, "w_s": ns.Warm, "zone": zone.String()})
 	detail := map[string]any{"strategy": ns.Name, "class": class, "n": n, "w_s": ns.Warm, "zone": zone.String()}
 	fail := func(key, msg string) bool {
@@ -121,14 +126,12 @@ func c14Check(cc *run.Case, ns namedStrat, class string, n int) bool {
 		fail(key, fmt.Sprintf("the date axis has %d rows for %d snapshots (warm-up %d)", rows, n, ns.Warm))
 		return key != ""
 	}
-	first := dayIndex(d.Dates[0])
+	// the date axis must be the dates of the last `rows` snapshots, one row per snapshot
+	first := n - rows
 	for k, dt := range d.Dates {
-		if dayIndex(dt) != first+k {
-			return fail("", fmt.Sprintf("date row %d is %s, expected consecutive snapshot dates from %s", k, dt.Format("2006-01-02"), d.Dates[0].Format("2006-01-02")))
+		if !dt.Equal(snaps[first+k].Date) {
+			return fail("", fmt.Sprintf("date row %d is %s, the %d-th snapshot is dated %s (the date axis must carry the dates of the last %d snapshots)", k, dt.Format("2006-01-02"), first+k, snaps[first+k].Date.Format("2006-01-02"), rows))
 		}
-	}
-	if first+rows != n {
-		return fail("", fmt.Sprintf("the date axis ends at snapshot %d of %d", first+rows-1, n))
 	}
 	ok := true
 	for i := range d.Cols {
@@ -232,7 +235,11 @@ func c14Check(cc *run.Case, ns namedStrat, class string, n int) bool {
 		minLag[i] = math.MaxInt
 	}
 	probe := func(p, kind int) bool {
-		alt := drainReport(ns.New().Report(helper.SliceToChan(inZone(reg.Snaps(perturb(bars, p, kind, cc.R)), zone))))
+		altSnaps := inZone(reg.Snaps(perturb(bars, p, kind, cc.R)), zone)
+		for i := range altSnaps {
+			altSnaps[i].Date = snaps[i].Date
+		}
+		alt := drainReport(ns.New().Report(helper.SliceToChan(altSnaps)))
 		cc.Count("front_probes", 1)
 		for i := range d.Cols {
 			if d.Roles[i] != "data" || d.Names[i] == "Outcome" || i >= len(alt.Cols) {
